@@ -72,12 +72,24 @@ static void emu_output(const char *cmd, char *out, size_t n)
     while (*cmd == ' ') cmd++;
     if (cmd[0] == 'e' && (cmd[1] == ' ' || !cmd[1])) snprintf(out, n, "%s\n", cmd[1] ? cmd + 2 : ""); else out[0] = 0;
 }
+static char g_preproc_out[PATH_MAX]; static int g_preprocs;      /* the file the last emulated preprocessor wrote, and how many ran */
+static long emu_big(const char *cmd) { while (*cmd == ' ') cmd++; return strncmp(cmd, "big ", 4) ? -1 : atol(cmd + 4); }
 int __wrap_system(const char *c)
 {
     if (g_exec_emul) {
         const char *gt = NULL; for (const char *p = c; (p = strstr(p, " >")) != NULL; p += 2) gt = p;
         if (gt) { char cmd[2048], out[2100]; snprintf(cmd, sizeof cmd, "%.*s", (int) (gt - c), c); emu_output(cmd, out, sizeof out);
-            FILE *f = __real_fopen(gt + 2, "w"); if (f) { fputs(out, f); __real_fclose(f); } }
+            while (gt[2] == ' ') gt++;              /* "CMD >FILE" and "CMD > FILE" */
+            long big = emu_big(cmd);                /* "big N": N times 'x' and a newline */
+            if (!strncmp(cmd, "cat < ", 6)) {       /* "cat < FILE": the preprocessor that changes nothing */
+                FILE *in = __real_fopen(cmd + 6, "r"), *f = __real_fopen(gt + 2, "w"); int ch;
+                if (in && f) while ((ch = fgetc(in)) != EOF) fputc(ch, f);
+                if (in) __real_fclose(in);
+                if (f) __real_fclose(f);
+                snprintf(g_preproc_out, sizeof g_preproc_out, "%s", gt + 2); g_preprocs++;
+                return 0;
+            }
+            FILE *f = __real_fopen(gt + 2, "w"); if (f) { if (big >= 0) { for (long i = 0; i < big; i++) fputc('x', f); fputc('\n', f); } else fputs(out, f); __real_fclose(f); } }
         return 0;
     }
     trap("system", c); return 0;
